@@ -3,7 +3,7 @@
 # Rebuilds kvet if its sources are newer than the binary, then decides the property on /repo's current tree.
 cd /verif || exit 2
 export GOPROXY=off GOSUMDB=off GOTOOLCHAIN=local GOWORK=off
-if [ ! -x bin/kvet ] || [ -n "$(find kvet -name '*.go' -newer bin/kvet -not -path 'kvet/vendor/*' 2>/dev/null | head -1)" ]; then
+if [ ! -x bin/kvet ] || [ -n "$(find kvet \( -name '*.go' -o -name names.json \) -newer bin/kvet -not -path 'kvet/vendor/*' 2>/dev/null | head -1)" ]; then
   mkdir -p bin
   (cd kvet && GOFLAGS=-mod=vendor go build -o ../bin/kvet.$$ . && mv ../bin/kvet.$$ ../bin/kvet) || { echo "kvet: build failed" >&2; exit 2; }
 fi
